@@ -16,7 +16,7 @@ LEVEL = "exploration"
 RULE = ("random consumer sequences (length 1-10, repeated and reordered, producers shared between lists) over pools of finished "
         "results; every built-in command of the CSV and NetCDF library sets is a consumer; distinct by (library set, rank, sequence "
         "of consumer command names up to 4, list arities)")
-REQUIRED_COUNTERS = ["digest_rechecks", "consumer_executions", "results_watched", "model_runs", "nonfinite_fields_watched", "large_rasters_watched", "file_reads_in_sequences", "program_copies_checked"]
+REQUIRED_COUNTERS = ["second_programs_with_the_same_names", "digest_rechecks", "consumer_executions", "results_watched", "model_runs", "nonfinite_fields_watched", "large_rasters_watched", "file_reads_in_sequences", "program_copies_checked"]
 ASSUMPTIONS = ["values stored under the mask are excluded from the digest", "NaN / infinite cells are compared by their bits"]
 
 
@@ -114,6 +114,28 @@ def run_model(ctx, case):
         ctx.count("digest_rechecks")
         if arr.digest(prog.commands[name]._result) != dg and not bad:
             bad.append(("<end-of-run>", "-", name, type(prog.commands[name]).__name__))
+    if not bad and recorded and len(model["commands"]) % 2 == 0:
+        # the same command file evaluated for another table by a second program of the process: the first program's results
+        # stay what they were
+        import copy
+        other = copy.deepcopy(model)
+        for col in other["table"]["cols"].values():
+            col["data"] = [(v if v == other["table"]["missing"] else v + 1) for v in reversed(col["data"])]
+        try:
+            prog2 = models.load(other, ctx.scratch())
+            prog2.run()
+        except Exception:
+            prog2 = None
+        ctx.count("second_programs_with_the_same_names")
+        for name, dg in recorded.items():
+            ctx.count("digest_rechecks")
+            c = prog.commands[name]
+            try:
+                now = arr.digest(c.result)
+            except Exception as e:
+                now = "raises " + type(e).__name__
+            if now != dg and not bad:
+                bad.append(("<a second program with the same result names>", "-", name, type(c).__name__))
     ctx.count("results_watched", len(recorded))
     ctx.count("model_runs")
     ctx.feature(("model", model.get("libs", "csv"), tuple(sorted(set(c["cmd"] for c in model["commands"])))[:5]))
